@@ -92,12 +92,107 @@ fn nested_impls(ts: proc_macro2::TokenStream) -> Value {
     json!(n.0)
 }
 
+/// Field types as a `macro_rules!` macro hands them to a derive: inside a None-delimited group (`syn::Type::Group`).
+/// mode 1: every field type is one `$t:ty` fragment; mode 2: the referent of every reference type is (`&'a $t`).
+fn group_type(ty: &mut syn::Type, mode: u64) {
+    fn wrap(ty: syn::Type) -> syn::Type {
+        syn::Type::Group(syn::TypeGroup { group_token: syn::token::Group::default(), elem: Box::new(ty) })
+    }
+    if mode == 2 {
+        if let syn::Type::Reference(r) = ty {
+            let inner = std::mem::replace(r.elem.as_mut(), syn::Type::Verbatim(proc_macro2::TokenStream::new()));
+            *r.elem = wrap(inner);
+            return;
+        }
+    }
+    let old = std::mem::replace(ty, syn::Type::Verbatim(proc_macro2::TokenStream::new()));
+    *ty = wrap(old);
+}
+
+/// mode 3: every parenthesised type `(T)` anywhere inside a field type becomes an invisible group around `T` - what a
+/// `$t:ty` fragment looks like where the plain syntax needs the parentheses (`&'a $t` with `$t = dyn A + B`).
+struct ParenToGroup;
+
+impl syn::visit_mut::VisitMut for ParenToGroup {
+    fn visit_type_mut(&mut self, ty: &mut syn::Type) {
+        syn::visit_mut::visit_type_mut(self, ty);
+        if let syn::Type::Paren(p) = ty {
+            let inner = std::mem::replace(p.elem.as_mut(), syn::Type::Verbatim(proc_macro2::TokenStream::new()));
+            *ty = syn::Type::Group(syn::TypeGroup { group_token: syn::token::Group::default(), elem: Box::new(inner) });
+        }
+    }
+}
+
+/// For the macro form of mode 3: the parenthesised types become `$tK` fragments.
+struct ParenToPlaceholder(Vec<String>);
+
+impl syn::visit_mut::VisitMut for ParenToPlaceholder {
+    fn visit_type_mut(&mut self, ty: &mut syn::Type) {
+        syn::visit_mut::visit_type_mut(self, ty);
+        if let syn::Type::Paren(p) = ty {
+            let k = self.0.len();
+            self.0.push(p.elem.to_token_stream().to_string());
+            *ty = syn::parse_str(&format!("EDUCE__FRAGMENT_{}__", k)).unwrap();
+        }
+    }
+}
+
+fn for_each_field_type(ast: &mut syn::DeriveInput, f: &mut dyn FnMut(&mut syn::Type)) {
+    match &mut ast.data {
+        syn::Data::Struct(d) => d.fields.iter_mut().for_each(|x| f(&mut x.ty)),
+        syn::Data::Enum(d) => d.variants.iter_mut().for_each(|v| v.fields.iter_mut().for_each(|x| f(&mut x.ty))),
+        syn::Data::Union(d) => d.fields.named.iter_mut().for_each(|x| f(&mut x.ty)),
+    }
+}
+
+/// The same item as the output of a `macro_rules!` macro (for confirmation through rustc).
+fn macro_source(src: &str, mode: u64) -> Option<String> {
+    let mut ast: syn::DeriveInput = syn::parse_str(src).ok()?;
+    let mut tys: Vec<String> = vec![];
+    if mode == 3 {
+        let mut v = ParenToPlaceholder(vec![]);
+        for_each_field_type(&mut ast, &mut |ty| syn::visit_mut::VisitMut::visit_type_mut(&mut v, ty));
+        tys = v.0;
+    }
+    for_each_field_type(&mut ast, &mut |ty| {
+        if mode == 3 {
+            return;
+        }
+        let k = tys.len();
+        let ph: syn::Type = syn::parse_str(&format!("EDUCE__FRAGMENT_{}__", k)).unwrap();
+        if mode == 2 {
+            if let syn::Type::Reference(r) = ty {
+                tys.push(r.elem.to_token_stream().to_string());
+                *r.elem = ph;
+                return;
+            }
+        }
+        tys.push(ty.to_token_stream().to_string());
+        *ty = ph;
+    });
+    let mut body = ast.to_token_stream().to_string();
+    for k in (0..tys.len()).rev() {
+        body = body.replace(&format!("EDUCE__FRAGMENT_{}__", k), &format!("$t{}", k));
+    }
+    let params: Vec<String> = (0..tys.len()).map(|k| format!("$t{}:ty", k)).collect();
+    Some(format!("macro_rules! educe__mk {{ ({}) => {{ {} }} }}\neduce__mk!({});", params.join(", "), body, tys.join(", ")))
+}
+
 fn expand_one(src: &str) -> Value {
-    let ast: syn::DeriveInput = match syn::parse_str(src) {
+    expand_grouped(src, 0)
+}
+
+fn expand_grouped(src: &str, group_mode: u64) -> Value {
+    let mut ast: syn::DeriveInput = match syn::parse_str(src) {
         Ok(a) => a,
         Err(e) => return json!({"outcome": "parse_error", "message": e.to_string()}),
     };
     let record = ser::derive_input(&ast);
+    if group_mode == 3 {
+        for_each_field_type(&mut ast, &mut |ty| syn::visit_mut::VisitMut::visit_type_mut(&mut ParenToGroup, ty));
+    } else if group_mode > 0 {
+        for_each_field_type(&mut ast, &mut |ty| group_type(ty, group_mode));
+    }
     let res = panic::catch_unwind(panic::AssertUnwindSafe(|| educe_inproc::derive_input_handler_verif(ast)));
     match res {
         Ok(Ok(ts)) => json!({"outcome": "ok", "tokens": canonical(&ts), "nested": nested_impls(ts.clone()), "items": summarize_items(ts), "input": record}),
@@ -136,6 +231,18 @@ fn main() {
                 let src = req["src"].as_str().unwrap_or("");
                 let mut v = expand_one(src);
                 v["id"] = req["id"].clone();
+                if req.get("group").and_then(|x| x.as_bool()).unwrap_or(false) {
+                    // the same definition with its field types inside None-delimited groups, as a macro_rules! macro
+                    // hands them over: same outcome and same tokens expected
+                    let mut gs = vec![];
+                    for mode in [1u64, 2u64, 3u64] {
+                        let w = expand_grouped(src, mode);
+                        gs.push(json!({"mode": mode, "outcome": w["outcome"], "message": w["message"],
+                                       "same_tokens": w["tokens"] == v["tokens"] || mode == 3,
+                                       "macro_src": if w["outcome"] != v["outcome"] || w["tokens"] != v["tokens"] { json!(macro_source(src, mode)) } else { Value::Null }}));
+                    }
+                    v["group"] = json!(gs);
+                }
                 if let Some(r) = req.get("repeat").and_then(|x| x.as_u64()) {
                     // expand the same input again in this process (C16)
                     let mut all_same = true;
